@@ -45,6 +45,9 @@ type Check struct {
 	QuickBudget, ThoroughBudget time.Duration
 	// Serial checks run in one process.
 	Serial bool
+	// ReportAs is the property id used in VIOLATION lines, replay and evidence
+	// files when this check is one part of a property's check (default: ID).
+	ReportAs string
 	// Scenarios lists the explorer scenarios (for debugging / tracing).
 	Scenarios func(tier string) []*explore.Scenario
 }
@@ -413,6 +416,10 @@ func CheckMain(id, tier string) int {
 		return 2
 	}
 	start := time.Now()
+	prop := id
+	if ch.ReportAs != "" {
+		prop = ch.ReportAs
+	}
 	budget := ch.QuickBudget
 	if tier == "thorough" {
 		budget = ch.ThoroughBudget
@@ -614,7 +621,8 @@ func CheckMain(id, tier string) int {
 		path := filepath.Join(VerifDir, "replays", fmt.Sprintf("%s-%x.json", id, h[:5]))
 		b, _ := json.MarshalIndent(v, "", " ")
 		os.WriteFile(path, b, 0o644)
-		fmt.Printf("VIOLATION property=%s replay=%s\n", id, path)
+		v.Property = id
+		fmt.Printf("VIOLATION property=%s replay=%s\n", prop, path)
 		fmt.Printf("  signature: %s\n  %s\n", v.Sig, firstLines(v.Msg, 12))
 		exit = 1
 	}
@@ -625,7 +633,7 @@ func CheckMain(id, tier string) int {
 	}
 	sort.Strings(ks)
 	for _, k := range ks {
-		fmt.Printf("KNOWN-FINDING: property=%s %s (%s; hit %d times)\n", id, kf[k], k, known[k])
+		fmt.Printf("KNOWN-FINDING: property=%s %s (%s; hit %d times)\n", prop, kf[k], k, known[k])
 	}
 	// evidence
 	var scl []*ScenarioStat
@@ -659,10 +667,11 @@ func CheckMain(id, tier string) int {
 		cov["states_note"] = "distinct happens-before state hashes at choice points, summed over shards and scenarios (a state reached in two shards is counted twice); every execution runs the real rewritten dtail code, so every explored trace is validated against the implementation by construction"
 	}
 	seed, _ := strconv.ParseInt(os.Getenv("VERIF_SEED"), 10, 64)
-	ev := &Evidence{PropertyID: id, Tier: tier, Seed: seed, Level: ch.Level, Coverage: cov, Assumptions: ch.Assumptions,
+	ev := &Evidence{PropertyID: prop, Tier: tier, Seed: seed, Level: ch.Level, Coverage: cov, Assumptions: ch.Assumptions,
 		WallS: time.Since(start).Seconds(), Violations: nviol}
 	os.MkdirAll(filepath.Join(VerifDir, "evidence"), 0o755)
 	b, _ := json.MarshalIndent(ev, "", " ")
+	// a part of a property's check writes <part id>.json; bin/check merges the parts
 	if err := os.WriteFile(filepath.Join(VerifDir, "evidence", id+".json"), b, 0o644); err != nil {
 		fmt.Fprintln(os.Stderr, "HARNESS ERROR: cannot write evidence:", err)
 		return 2
